@@ -655,6 +655,8 @@ def build_types_units(exp_text, label, unit_prefix, modules=None, crate_root=Fal
     text = gen_verus.mark_lemmas(gen_verus.wrap('\n\n'.join(parts + [lits, body_ref])), tg_ref_unit)
     if c07:
         out['c07'] = (gen_verus.wrap(c07_text(tg, *c07)), [])
+        if c07[0] == 'quantities':
+            out['c14'] = (gen_verus.wrap(c14_text(tg, c07[1], unit_prefix.replace('types_', 'c14_'))), [])
     recs_ref = [dict(r, obligation=r['obligation'].replace(f'{unit_prefix}:', f'{tg_ref_unit}:')) for r in tg.records]
     out['ref'] = (text, em.records + recs_ref)
     if tg.out_noref:
@@ -790,3 +792,145 @@ if __name__ == '__main__':
     print(res['gen'].derived)
 
 
+
+
+# ---------------- C14: the temperature table against the exact physical formulas ----------------
+def c14_text(tg, cfg_kind, unit_name):
+    """Verus text over the constants of TEMPERATURE_CONVERTER as they appear in the expansion."""
+    import tomllib
+    import spec_tables as ST
+    from common import VERIF, Undecided
+    item = next((c for c in tg.conv_tables if c.name == 'TEMPERATURE_CONVERTER'), None)
+    if item is None:
+        raise LostAnchor('TEMPERATURE_CONVERTER not found in the expansion')
+    toks = item.toks
+    # locate `mappings : [ ... ]`
+    i = next((k for k in range(item.first, item.last) if toks[k].text == 'mappings' and toks[k + 1].text == ':' and toks[k + 2].text == '['), None)
+    if i is None:
+        raise LostAnchor('TEMPERATURE_CONVERTER: `mappings: [..]` not found')
+    close = rsparse.match_close(toks, i + 2)
+    rows = []
+    k = i + 3
+    while k < close:
+        if toks[k].text == '(':
+            c = rsparse.match_close(toks, k)
+            parts, cur, depth = [], [], 0
+            for t in toks[k + 1:c]:
+                if t.text in rsparse.OPEN:
+                    depth += 1
+                elif t.text in rsparse.CLOSE:
+                    depth -= 1
+                if t.text == ',' and depth == 0:
+                    parts.append(cur)
+                    cur = []
+                else:
+                    cur.append(t)
+            if cur:
+                parts.append(cur)
+            if len(parts) != 4 or len(parts[0]) != 1 or len(parts[1]) != 1:
+                raise LostAnchor('TEMPERATURE_CONVERTER: unexpected row shape')
+            f = find_literals(parts[2], 0, len(parts[2]))
+            o = find_literals(parts[3], 0, len(parts[3]))
+
+            def lit(p, found):
+                if len(found) != 1:
+                    raise LostAnchor('TEMPERATURE_CONVERTER: factor/offset is not a single literal')
+                fr = found[0][2]
+                neg = p[0].text == '-' and found[0][0] == 1
+                return -fr if neg else fr
+            rows.append((parts[0][0].text, parts[1][0].text, lit(parts[2], f), lit(parts[3], o)))
+            k = c + 1
+        else:
+            k += 1
+    with open(os.path.join(VERIF, 'spec', 'temperature.toml'), 'rb') as fh:
+        spec = tomllib.load(fh)['row']
+
+    def ev(s):
+        tab = ST.Table('quantities')
+        n = ST.parse(s.replace('-', '0-', 1) if s.startswith('-') else s)
+        lo, hi = tab._ev('Temperature', n, ())
+        return lo
+
+    def upper(ident):
+        import decls
+        return decls.upper_snake(ident)
+    EPS = Fraction(1, 2 ** 52)
+    DQ = Fraction(5, 10 ** 19)
+
+    def value(fr):
+        # the amount value the literal denotes: nearest binary64 / the decimal itself
+        return Fraction(float(fr)) if cfg_kind == 'f64' else fr
+
+    def near(actual, exact):
+        """Verus clause: `actual` (a literal's value) equals `exact` as far as the amount type allows"""
+        if cfg_kind == 'f64':
+            if ST.terminating(exact) and ST.sig_digits(exact) <= 17:
+                return None
+            return f'abs_r({real_of(actual)} - {real_of(exact)}) <= {real_of(EPS)} * abs_r({real_of(exact)})'
+        if ST.terminating(exact) and ST.frac_digits(exact) <= 18:
+            return None
+        return f'abs_r({real_of(actual)} - {real_of(exact)}) <= {real_of(DQ)}'
+    out = ['pub open spec fn abs_r(x: real) -> real { if x >= 0real { x } else { -x } }']
+    have = {}
+    for r in rows:
+        have.setdefault((r[0], r[1]), r)     # first entry for a pair wins (C14)
+    want = {(upper(s['from']), upper(s['to'])): s for s in spec}
+    for key, s in want.items():
+        nm = f'lemma_C14_row_{s["from"]}_to_{s["to"]}'
+        out.append(f'//@ob id={unit_name}:{nm} props=C14 kind=lemma')
+        if key not in have:
+            out.append(f'proof fn {nm}()\n    ensures false // no table entry for this ordered pair\n{{\n}}')
+            continue
+        _, _, f, o = have[key]
+        ef, eo = ev(s['factor']), ev(s['offset'])
+        clauses = []
+        for what, lit_v, exact in (('factor', f, ef), ('offset', o, eo)):
+            c = near(value(lit_v), exact)
+            if c is None:
+                clauses.append(f'{real_of(lit_v)} == {real_of(exact)}  /* {what} written in the source equals the exact formula */')
+            else:
+                clauses.append(c + f'  /* {what}: value of the literal {float(lit_v)!r} vs exact {s[what]} */')
+        out.append(f'proof fn {nm}()\n    ensures\n' + ''.join(f'        {c},\n'.replace('*/,', '*/') if False else f'        {c.split("  /*")[0]}, //{c.split("  /*")[1][:-2] if "  /*" in c else ""}\n' for c in clauses) + '{\n}')
+    # mutually inverse and consistent composition, over the values the table really holds
+    tol = 4 * EPS if cfg_kind == 'f64' else None
+    names = {upper(s['from']): s['from'] for s in spec}
+
+    def row(a, b):
+        r = have.get((a, b))
+        return (value(r[2]), value(r[3])) if r else None
+    units = sorted(names)
+    for a in units:
+        for b in units:
+            if a >= b:
+                continue
+            ab, ba = row(a, b), row(b, a)
+            if not ab or not ba:
+                continue
+            # x -> x*f1+o1 -> (..)*f2+o2 = x*(f1 f2) + (o1 f2 + o2): identity up to rounding of the constants
+            ff = ab[0] * ba[0]
+            oo = ab[1] * ba[0] + ba[1]
+            scale = max(abs(ab[1] * ba[0]), abs(ba[1]), 1)
+            nm = f'lemma_C14_inverse_{names[a]}_{names[b]}'
+            out.append(f'//@ob id={unit_name}:{nm} props=C14 kind=lemma')
+            bound_f = 4 * EPS if cfg_kind == 'f64' else 4 * DQ
+            bound_o = (4 * EPS * scale) if cfg_kind == 'f64' else (4 * DQ * scale)
+            out.append(f'proof fn {nm}()\n    ensures\n'
+                       f'        abs_r({real_of(ab[0])} * {real_of(ba[0])} - 1real) <= {real_of(bound_f)},\n'
+                       f'        abs_r({real_of(ab[1])} * {real_of(ba[0])} + {real_of(ba[1])}) <= {real_of(bound_o)},\n{{\n}}')
+    for a in units:
+        for b in units:
+            for c in units:
+                if len({a, b, c}) != 3:
+                    continue
+                ab, bc, ac = row(a, b), row(b, c), row(a, c)
+                if not (ab and bc and ac):
+                    continue
+                scale = max(abs(ab[1] * bc[0]), abs(bc[1]), abs(ac[1]), 1)
+                bound_f = 4 * EPS * abs(ac[0]) if cfg_kind == 'f64' else 4 * DQ
+                bound_o = (4 * EPS * scale) if cfg_kind == 'f64' else (4 * DQ * scale)
+                nm = f'lemma_C14_compose_{names[a]}_{names[b]}_{names[c]}'
+                out.append(f'//@ob id={unit_name}:{nm} props=C14 kind=lemma')
+                out.append(f'proof fn {nm}()\n    ensures\n'
+                           f'        abs_r({real_of(ab[0])} * {real_of(bc[0])} - {real_of(ac[0])}) <= {real_of(bound_f)},\n'
+                           f'        abs_r(({real_of(ab[1])} * {real_of(bc[0])} + {real_of(bc[1])}) - {real_of(ac[1])}) <= {real_of(bound_o)},\n{{\n}}')
+    return '\n'.join(out) + '\n'
